@@ -152,6 +152,7 @@ def _written_parameters(p):
     return names
 
 
+@common.guarded("C09")
 def judge(spec):
     import blackbird
     V = _values()
